@@ -6,6 +6,7 @@
             closes it after the k-th answer, or raises; evaluate_bounded.
 -/
 import Yld.Model.Codec
+import Yld.Model.Py
 import Yld.Generated.Tables
 namespace Yld
 
@@ -78,15 +79,48 @@ structure QueryResult where
   cyc : Bool := false
 deriving Repr, Inhabited
 
+/-! ### The queried predicate run from its Python text
+
+`YP.query` as `query` models it, except that the generated function of the queried predicate is
+run by the Python semantics of `Yld.Model.Py` from the statements `Emit` prints for it; the
+predicates it calls run as compiled code. Fuel is spent as `query` spends it. -/
+
+def runDefPyTop (cfg : Cfg) : Nat → Def → List Term → Gen
+  | 0, _, _, _, w => (w, some .oof)
+  | f+1, .prolog p _, args, k, w =>
+      pyCall (Yld.query cfg f) (unify f) (defOfPred p (compilePred p 0).1) args k w
+  | f+1, d, args, k, w => runDef cfg (f+1) d args k w
+
+def runChainPyTop (cfg : Cfg) : Nat → List Def → List Term → Gen
+  | 0, _, _, _, w => (w, some .oof)
+  | _+1, [], _, _, w => (w, none)
+  | f+1, d :: ds, args, k, w =>
+      match runDefPyTop cfg f d args k w with
+      | (w', none) => runChainPyTop cfg f ds args k w'
+      | r => r
+
+def queryPyTop (cfg : Cfg) : Nat → String → List Term → Gen
+  | 0, _, _, _, w => (w, some .oof)
+  | f+1, name, args, k, w =>
+      match matchDynamic f name args k w with
+      | (w1, none) =>
+          if cfg.blacklist.contains name then (w1, none) else
+          match (cfg.defs.get (predKey name args.length)).orElse
+                  (fun _ => cfg.defs.get (variadicKey name)) with
+          | none => (w1, none)
+          | some chain => runChainPyTop cfg f chain args k w1
+      | r => r
+
 def Engine.query (e : Engine) (mode : Mode) (fuel : Nat) (name : String) (args : List Term)
-    (sched : Sched) : Engine × QueryResult :=
+    (sched : Sched) (pyTop : Bool := false) : Engine × QueryResult :=
   let cfg : Cfg := { blacklist := e.blacklist, defs := e.defs, mode := mode }
   let w0 := { e.w with acc := [] :: e.w.acc, cyc := false }
   let (w1, r) :=
     match sched with
     | .stop 0 => (w0, some Sig.stop)
     | .raise 0 => (w0, some (Sig.exn "ConsumerError"))
-    | _ => Yld.query cfg fuel name args (topConsumer fuel args sched) w0
+    | _ => if pyTop then queryPyTop cfg fuel name args (topConsumer fuel args sched) w0
+           else Yld.query cfg fuel name args (topConsumer fuel args sched) w0
   let answers := w1.acc.headD []
   let w2 := { w1 with acc := w1.acc.tail }
   ({ e with w := w2 }, { answers := answers, ending := r, bound := w2.boundCount, cyc := w2.cyc })
@@ -101,9 +135,9 @@ def Engine.assertFact (e : Engine) (fuel : Nat) (name : String) (args : List Ter
     arguments and raises at its `raiseAt`-th call. Returns the collected prefix, whether the
     projection's exception escapes, and the number of cells still bound afterwards. -/
 def Engine.evaluateBounded (e : Engine) (mode : Mode) (limit : Nat) (name : String)
-    (args : List Term) (raiseAt : Option Nat) : Engine × QueryResult :=
+    (args : List Term) (raiseAt : Option Nat) (pyTop : Bool := false) : Engine × QueryResult :=
   let sched := match raiseAt with | some k => Sched.raise k | none => Sched.all
-  let (e', r) := e.query mode limit name args sched
+  let (e', r) := e.query mode limit name args sched pyTop
   -- `except RuntimeError: pass`: a recursion error ends the collection silently
   let ending := match r.ending with
     | some .oof => none
